@@ -514,9 +514,9 @@ Proof. intro H. unfold taps2. apply f_equal. apply map_ext. intro a. apply f_equ
 
 (* ---- the per-channel operators are zero-preserving and extensional *)
 Lemma T1_zero w tm K d s co wi : eqR (T1 R r0 r1 radd rmul w tm K d s co wi zeroR) zeroR.
-Proof. intro i. unfold T1, of1. apply taps_xzero. intro v. reflexivity. Qed.
+Proof. intro i. unfold T1, of1. apply taps_xzero. intro v. unfold padl, clip, as1. destruct (_ <? _)%Z; reflexivity. Qed.
 Lemma T1_resp w tm K d s co wi : respects SR eqR (T1 R r0 r1 radd rmul w tm K d s co wi).
-Proof. intros sg sg' H i. unfold T1, of1. apply taps_xext. intro v. unfold padl, as1. apply H. Qed.
+Proof. intros sg sg' H i. unfold T1, of1. apply taps_xext. intro v. unfold padl, clip, as1. destruct (_ <? _)%Z; [reflexivity|apply H]. Qed.
 Lemma T2_zero w kh kw d s ph pw co wi : eqR (T2 R r0 radd rmul w kh kw d s ph pw co wi zeroR) zeroR.
 Proof. intro i. unfold T2, of2. apply (PC.taps2_zero R r0 radd rmul Hadd0 Hm0r). intros a b. reflexivity. Qed.
 Lemma T2_resp w kh kw d s ph pw co wi : respects SR eqR (T2 R r0 radd rmul w kh kw d s ph pw co wi).
@@ -559,13 +559,13 @@ Lemma pit1_spec (fold dw : bool) (w : w3 R) (b : option (list R)) (bn : option (
          (addR (bcst b co) (if dw then P1 w tm K d s co 0 (nth co xs zeroR)
                             else sumR (map (fun ci => P1 w tm K d s co ci (nth ci xs zeroR)) (seq 0 cin))))))
       (of1 R (fun t => pit_conv1d_at r0 r1 radd rmul true fold dw w b bn cin K (Z.of_nat d) (Z.of_nat s) m tm
-                         (fun ci => padl ((K - 1) * d) (as1 R (nth ci xs zeroR))) co t)).
+                         (fun ci => padl ((K - 1) * d) (clip R r0 (as1 R (nth ci xs zeroR)))) co t)).
 Proof.
   intros Hlen Hb i. unfold of1.
   assert (Core : (addR (bcst b co) (if dw then P1 w tm K d s co 0 (nth co xs zeroR)
                             else sumR (map (fun ci => P1 w tm K d s co ci (nth ci xs zeroR)) (seq 0 cin)))) i
                  = conv1d_at r0 radd rmul dw (mask_w3_time r0 r1 rmul tm w) b cin K (Z.of_nat d) (Z.of_nat s)
-                     (fun ci => padl ((K - 1) * d) (as1 R (nth ci xs zeroR))) co (nth 0 i 0%Z)).
+                     (fun ci => padl ((K - 1) * d) (clip R r0 (as1 R (nth ci xs zeroR)))) co (nth 0 i 0%Z)).
   { rewrite bias_at. unfold conv1d_at. f_equal. destruct dw; [reflexivity|]. rewrite sumR_at, map_map. reflexivity. }
   destruct fold.
   - destruct (nth co m false) eqn:E; cbn [gate].
@@ -646,7 +646,7 @@ Lemma exp1_full_spec (fold : bool) (w : w3 R) (b : option (list R)) (bn : option
          (addR (bcst b (nth i (kept m) 0)) (sumR (map (fun j => P1 w tm K d s (nth i (kept m) 0) (nth j (kept min) 0) (nth j xs' zeroR)) (seq 0 (length (kept min)))))))
       (of1 R (fun t => bn_at r0 radd rmul (if fold then None else slice_bn m bn) i
                  (conv1d_at r0 radd rmul false (export_w3 false m min tm w) (export_bias m b) (count_true min) K' (Z.of_nat (sp * d)) (Z.of_nat s)
-                    (fun j => padl ((K' - 1) * (sp * d)) (as1 R (nth j xs' zeroR))) i t))).
+                    (fun j => padl ((K' - 1) * (sp * d)) (clip R r0 (as1 R (nth j xs' zeroR)))) i t))).
 Proof.
   intros (Hlw & Hc & Hk) Hb Hbn Htm Hl Hmin Hi idx. unfold of1, postbn. rewrite bnsel by assumption. f_equal.
   assert (Hi' : i < length (kept m)) by (rewrite PC.kept_length; exact Hi).
@@ -669,7 +669,7 @@ Lemma exp1_dw_spec (fold : bool) (w : w3 R) (b : option (list R)) (bn : option (
          (addR (bcst b (nth i (kept m) 0)) (P1 w tm K d s (nth i (kept m) 0) 0 (nth i xs' zeroR))))
       (of1 R (fun t => bn_at r0 radd rmul (if fold then None else slice_bn m bn) i
                  (conv1d_at r0 radd rmul true (export_w3 true m min tm w) (export_bias m b) (count_true min) K' (Z.of_nat (sp * d)) (Z.of_nat s)
-                    (fun j => padl ((K' - 1) * (sp * d)) (as1 R (nth j xs' zeroR))) i t))).
+                    (fun j => padl ((K' - 1) * (sp * d)) (clip R r0 (as1 R (nth j xs' zeroR)))) i t))).
 Proof.
   intros (Hlw & Hc & Hk) Hb Hbn Htm Hl Hi idx. unfold of1, postbn. rewrite bnsel by assumption. f_equal.
   assert (Hi' : i < length (kept m)) by (rewrite PC.kept_length; exact Hi).
@@ -788,3 +788,409 @@ Proof.
 Qed.
 
 End ConcreteProofs.
+
+(* ================================================================ run_net (lists) computes ceval_pit / ceval_exp (functions) *)
+Notation SZ := (SR Z).
+Notation zeroZR := (zeroR Z 0%Z).
+
+Definition agree1 (n : nat) (x : list (list Z)) (l : list SZ) : Prop :=
+  Forall2 (fun c s => length c = n /\ forall tt, tt < n -> s [Z.of_nat tt] = nth tt c 0%Z) x l.
+Definition agree0 (x : list Z) (l : list SZ) : Prop := Forall2 (fun v s => forall i, s i = v) x l.
+(* same as PitNet.agree, with the common channel length made explicit *)
+Definition agreeT (t : tens) (l : list SZ) : Prop :=
+  match t with TS1 x => exists n, agree1 n x l | TS0 x => agree0 x l | _ => False end.
+
+Lemma Forall2_map_seq2 {A B} (Rel : A -> B -> Prop) (F : nat -> A) (G : nat -> B) n :
+  (forall i, i < n -> Rel (F i) (G i)) -> Forall2 Rel (map F (seq 0 n)) (map G (seq 0 n)).
+Proof.
+  intro H. assert (K : forall l, (forall i, In i l -> i < n) -> Forall2 Rel (map F l) (map G l)).
+  { induction l as [|a l IH]; intro Hl; [constructor|]. cbn. constructor; [apply H, Hl; left; reflexivity|apply IH; intros i Hi; apply Hl; right; exact Hi]. }
+  apply K. intros i Hi. apply in_seq in Hi. lia.
+Qed.
+
+Lemma agree1_first n x l : agree1 n x l -> x <> [] -> length (nth 0 x []) = n.
+Proof. intros H Hne. destruct H as [|c s x l [Hc _] _]; [congruence|exact Hc]. Qed.
+
+(* ---- reading a causally padded list tensor = reading the shifted, clipped channel function *)
+Lemma sig1_nil u : sig1 0%Z [] u = 0%Z.
+Proof. unfold sig1. destruct (u <? 0)%Z; [reflexivity|]. destruct (Z.to_nat u); reflexivity. Qed.
+
+Lemma read1 n v l P ci un : agree1 n v l -> (ci < length v -> un < P + n) ->
+  chans1 0%Z (Zpad1d P v) ci (Z.of_nat un) = padl P (clip Z 0%Z (as1 Z (nth ci l zeroZR))) (Z.of_nat un).
+Proof.
+  intros Hag Hb. pose proof (Forall2_len _ _ _ Hag) as Hlen.
+  unfold chans1, Zpad1d, pad1d, padl, clip, as1.
+  destruct (Nat.lt_ge_cases ci (length v)) as [Hci|Hci].
+  - specialize (Hb Hci). rewrite (PC.nth_map_in _ v ci [] []) by exact Hci.
+    pose proof (Forall2_nth _ v l [] zeroZR Hag ci Hci) as [Hc Hv]. cbn beta in Hc, Hv.
+    unfold sig1. replace (Z.of_nat un <? 0)%Z with false by (symmetry; apply Z.ltb_ge; lia). rewrite Nat2Z.id.
+    destruct (Nat.lt_ge_cases un P) as [Hu|Hu].
+    + rewrite app_nth1 by (rewrite repeat_length; exact Hu). rewrite nth_repeat.
+      replace (Z.of_nat un - Z.of_nat P <? 0)%Z with true by (symmetry; apply Z.ltb_lt; lia). reflexivity.
+    + rewrite app_nth2 by (rewrite repeat_length; exact Hu). rewrite repeat_length.
+      replace (Z.of_nat un - Z.of_nat P <? 0)%Z with false by (symmetry; apply Z.ltb_ge; lia).
+      replace (Z.of_nat un - Z.of_nat P)%Z with (Z.of_nat (un - P)) by lia.
+      rewrite Hv by lia. reflexivity.
+  - rewrite (nth_overflow (map _ v)) by (rewrite map_length; exact Hci). rewrite sig1_nil.
+    assert (Hl2 : length l <= ci) by (unfold SR in *; lia).
+    rewrite (nth_overflow l zeroZR Hl2). destruct (_ <? _)%Z; reflexivity.
+Qed.
+
+(* ---- a generic causal 1-D layer: output (co, t) only reads the inputs at times s*t + j*d, j < K *)
+Definition local1 (F : (nat -> Z -> Z) -> nat -> Z -> Z) (K d s : nat) : Prop :=
+  forall X X' co t, (forall ci j, j < K -> X ci (Z.of_nat s * t + Z.of_nat j * Z.of_nat d)%Z = X' ci (Z.of_nat s * t + Z.of_nat j * Z.of_nat d)%Z) -> F X co t = F X' co t.
+
+Lemma out_len_bound n K d s tt : 1 <= s -> tt < out_len ((K - 1) * d + n) K d s -> 1 <= n /\ s * tt <= n - 1.
+Proof.
+  intros Hs H. unfold out_len in H. rewrite (Nat.mul_comm d (K - 1)) in H.
+  destruct (_ <? _) eqn:E; [lia|]. apply Nat.ltb_ge in E. split; [lia|].
+  replace ((K - 1) * d + n - (K - 1) * d - 1) with (n - 1) in H by lia.
+  assert (tt <= (n - 1) / s) by lia.
+  transitivity (s * ((n - 1) / s)); [apply Nat.mul_le_mono_l; assumption|apply Nat.mul_div_le; lia].
+Qed.
+
+Lemma layer1_agree (F : (nat -> Z -> Z) -> nat -> Z -> Z) K d s C n v l : local1 F K d s -> 1 <= s -> agree1 n v l ->
+  agreeT (TS1 (map (fun co => map (fun t => F (chans1 0%Z (Zpad1d ((K - 1) * d) v)) co (Z.of_nat t))
+                             (seq 0 (out_len (length (nth 0 (Zpad1d ((K - 1) * d) v) [])) K d s))) (seq 0 C)))
+         (map (fun co => of1 Z (fun t => F (fun ci => padl ((K - 1) * d) (clip Z 0%Z (as1 Z (nth ci l zeroZR)))) co t)) (seq 0 C)).
+Proof.
+  intros Hloc Hs Hag. set (P := (K - 1) * d). set (no := out_len (length (nth 0 (Zpad1d P v) [])) K d s).
+  exists no. apply Forall2_map_seq2. intros co Hco. split; [rewrite map_length, seq_length; reflexivity|].
+  intros tt Htt. rewrite (PC.nth_map_seq0 _ no tt 0%Z Htt). unfold of1. cbn [nth].
+  apply Hloc. intros ci j Hj.
+  replace (Z.of_nat s * Z.of_nat tt + Z.of_nat j * Z.of_nat d)%Z with (Z.of_nat (s * tt + j * d)) by lia.
+  symmetry. apply (read1 n v l P ci (s * tt + j * d) Hag). intro Hci.
+  assert (Hne : v <> []) by (intro E; subst v; cbn in Hci; lia).
+  assert (HL : length (nth 0 (Zpad1d P v) []) = P + n).
+  { unfold Zpad1d, pad1d. rewrite (PC.nth_map_in _ v 0 [] []) by (destruct v; [congruence|cbn; lia]).
+    rewrite app_length, repeat_length, (agree1_first n v l Hag Hne). reflexivity. }
+  unfold no in Htt. rewrite HL in Htt. destruct (out_len_bound n K d s tt Hs Htt) as [Hn Hb].
+  assert (j * d <= P) by (unfold P; apply Nat.mul_le_mono_r; lia). lia.
+Qed.
+
+(* the concrete 1-D layers are local *)
+Lemma taps_local wk K d (x x' : Z -> Z) u : (forall j, j < K -> x (u + Z.of_nat j * d)%Z = x' (u + Z.of_nat j * d)%Z) ->
+  taps 0%Z Z.add Z.mul wk K d x u = taps 0%Z Z.add Z.mul wk K d x' u.
+Proof. intro H. unfold taps. apply f_equal. apply map_ext_in. intros j Hj. apply in_seq in Hj. rewrite H by lia. reflexivity. Qed.
+Lemma conv1d_local dw w b cin K d s : local1 (fun X co t => conv1d_at 0%Z Z.add Z.mul dw w b cin K (Z.of_nat d) (Z.of_nat s) X co t) K d s.
+Proof.
+  intros X X' co t H. unfold conv1d_at. f_equal. destruct dw.
+  - apply taps_local. intros j Hj. apply H. exact Hj.
+  - apply f_equal. apply map_ext. intro ci. apply taps_local. intros j Hj. apply H. exact Hj.
+Qed.
+Lemma pit_conv1d_local fold dw w b bn cin K d s m tm :
+  local1 (fun X co t => pit_conv1d_at 0%Z 1%Z Z.add Z.mul true fold dw w b bn cin K (Z.of_nat d) (Z.of_nat s) m tm X co t) K d s.
+Proof.
+  intros X X' co t H. unfold pit_conv1d_at. destruct fold.
+  - apply (conv1d_local dw _ _ cin K d s X X' co t H).
+  - f_equal. f_equal. apply (conv1d_local dw _ _ cin K d s X X' co t H).
+Qed.
+
+(* ---- invariant between the list-level run and the concrete (function-level) network *)
+Definition xdef : xstate := (TErr, TErr, []).
+Definition Inv3 (st : xstate) (al : list bool) (P E : list SZ) : Prop :=
+  let '(p, e, a) := st in a = al /\ agreeT p P /\ agreeT e E.
+Definition GoodX (acc : list xstate) (cal : list (list bool)) (cP cE : list (list SZ)) : Prop :=
+  length cal = length acc /\ length cP = length acc /\ length cE = length acc /\
+  forall i, i < length acc -> Inv3 (nth i acc xdef) (nth i cal []) (nth i cP []) (nth i cE []).
+
+Definition is1 (t : tens) : Prop := match t with TS1 _ => True | _ => False end.
+Definition is0 (t : tens) : Prop := match t with TS0 _ => True | _ => False end.
+Definition same_shape (t1 t2 : tens) : Prop :=
+  match t1, t2 with TS1 x, TS1 y => length x = length y /\ tmult t1 = tmult t2 | TS0 _, TS0 _ => True | _, _ => False end.
+Definition cat_ok (t0 t : tens) : Prop :=
+  match t0, t with TS1 x, TS1 y => x <> [] /\ y <> [] /\ tmult t0 = tmult t | TS0 _, TS0 _ => True | _, _ => False end.
+
+(* well-formed node of the executable evaluator (node kinds covered: input, conv1d full/depthwise with its causal pad,
+   linear, relu/relu6, identity/dropout, flatten of a 1-D tensor, add, channel concat) *)
+Definition xwf_node (x : tens) (acc : list xstate) (nd : xnode) : Prop :=
+  match nd with
+  | XIn => exists v n, x = TS1 v /\ Forall (fun c => length c = n) v
+  | XId src => src < length acc
+  | XAct src _ => src < length acc
+  | XConv1 src fold dw w b cin K d s m tm K' d' =>
+      src < length acc /\ 1 <= s /\ d' = (d' / d) * d /\
+      let '(p, e, a) := xget acc src in is1 p /\ is1 e /\ clayer_wf Z (L1 Z fold dw w b None cin K d s tm K' (d' / d)) m a
+  | XLin src fold w b cin m =>
+      src < length acc /\ let '(p, e, a) := xget acc src in is0 p /\ is0 e /\ clayer_wf Z (L0 Z fold w b None cin) m a
+  | XFlatten src => src < length acc /\ let '(p, e, _) := xget acc src in is1 p /\ is1 e /\ tmult e = tmult p
+  | XAdd i j => i < length acc /\ j < length acc /\
+      let '(p1, e1, a1) := xget acc i in let '(p2, e2, a2) := xget acc j in a1 = a2 /\ same_shape p1 p2 /\ same_shape e1 e2
+  | XCat srcs => srcs <> [] /\ Forall (fun j => j < length acc /\
+      let '(p0, e0, _) := xget acc (hd 0 srcs) in let '(p, e, _) := xget acc j in cat_ok p0 p /\ cat_ok e0 e) srcs
+  | _ => False
+  end.
+
+Lemma GoodX_get acc cal cP cE src : GoodX acc cal cP cE -> src < length acc ->
+  Inv3 (xget acc src) (nth src cal []) (nth src cP []) (nth src cE []).
+Proof. intros (_ & _ & _ & H) Hs. apply H. exact Hs. Qed.
+
+Lemma Forall2_map_self {A B} (Rel : A -> B -> Prop) (g : A -> B) l : Forall (fun a => Rel a (g a)) l -> Forall2 Rel l (map g l).
+Proof. induction 1; cbn; constructor; auto. Qed.
+
+Lemma agree_in v n : Forall (fun c => length c = n) v -> agree1 n v (emb (TS1 v)).
+Proof.
+  intro H. unfold agree1, emb. apply Forall2_map_self. eapply Forall_impl; [|exact H]. intros c Hc. split; [exact Hc|].
+  intros tt Htt. unfold of1, sig1. cbn [nth]. replace (Z.of_nat tt <? 0)%Z with false by (symmetry; apply Z.ltb_ge; lia).
+  rewrite Nat2Z.id. reflexivity.
+Qed.
+
+Lemma agree_map_act (f : Z -> Z) t l : agreeT t l -> agreeT (tmap (map f) (map (map f)) f t) (map (actZ f) l).
+Proof.
+  destruct t as [x|x|x|]; cbn; try tauto.
+  - intros [n H]. exists n. unfold agree1 in *. induction H as [|c s x l [Hc Hv] _ IH]; cbn; constructor; auto.
+    split; [rewrite map_length; exact Hc|]. intros tt Htt. unfold actZ. rewrite Hv by exact Htt.
+    rewrite (PC.nth_map_in f c tt 0%Z 0%Z) by lia. reflexivity.
+  - intro H. unfold agree0 in *. induction H as [|c s x l Hv _ IH]; cbn; constructor; auto. intro i. unfold actZ. rewrite Hv. reflexivity.
+Qed.
+
+Lemma linear_local w b cin (X X' : nat -> Z) co : (forall ci, ci < cin -> X ci = X' ci) ->
+  linear_at 0%Z Z.add Z.mul w b cin X co = linear_at 0%Z Z.add Z.mul w b cin X' co.
+Proof. intro H. unfold linear_at. f_equal. apply f_equal. apply map_ext_in. intros ci Hci. apply in_seq in Hci. rewrite H by lia. reflexivity. Qed.
+Lemma pit_linear_local fold w b bn cin m (X X' : nat -> Z) co : (forall ci, ci < cin -> X ci = X' ci) ->
+  pit_linear_at 0%Z 1%Z Z.add Z.mul true fold w b bn cin m X co = pit_linear_at 0%Z 1%Z Z.add Z.mul true fold w b bn cin m X' co.
+Proof. intro H. unfold pit_linear_at. destruct fold; [apply linear_local; exact H|]. f_equal. f_equal. apply linear_local; exact H. Qed.
+
+Lemma read0 v l ci : agree0 v l -> nth ci v 0%Z = as0 Z (nth ci l zeroZR).
+Proof.
+  intro H. unfold as0. revert ci. induction H as [|c s x l Hv _ IH]; intro ci; destruct ci; cbn; auto.
+Qed.
+
+(* ---- the two tensors computed by one step of run_net agree with the concrete layer functions *)
+Lemma conv1_pit_agree fold dw w b cin K d s m tm K' sp n v l : 1 <= s -> agree1 n v l ->
+  agreeT (TS1 (pit_conv1d_l fold dw w b cin K d s m tm (Zpad1d ((K - 1) * d) v)))
+         (clayer_pit Z 0%Z 1%Z Z.add Z.mul (L1 Z fold dw w b None cin K d s tm K' sp) m l).
+Proof.
+  intros Hs Hag. unfold pit_conv1d_l, clayer_pit.
+  apply (layer1_agree (fun X co t => pit_conv1d_at 0%Z 1%Z Z.add Z.mul true fold dw w b None cin K (Z.of_nat d) (Z.of_nat s) m tm X co t) K d s (length w) n v l);
+    auto using pit_conv1d_local.
+Qed.
+
+Lemma conv1_exp_agree fold dw (w : list (list (list Z))) b cin K d s (m a : list bool) tm K' sp n v l : 1 <= s -> length w = length m -> agree1 n v l ->
+  agreeT (TS1 (Zconv1d dw (export_w3 dw m a tm w) (export_bias m b) (count_true a) K' (sp * d) s (Zpad1d ((K' - 1) * (sp * d)) v)))
+         (clayer_exp Z 0%Z Z.add Z.mul (L1 Z fold dw w b None cin K d s tm K' sp) m a l).
+Proof.
+  intros Hs Hlw Hag. unfold Zconv1d, conv1d, clayer_exp.
+  assert (HC : length (export_w3 dw m a tm w) = count_true m).
+  { unfold export_w3. rewrite map_length. apply PC.select_length. exact Hlw. }
+  rewrite HC.
+  assert (G : agreeT (TS1 (map (fun co => map (fun t => conv1d_at 0%Z Z.add Z.mul dw (export_w3 dw m a tm w) (export_bias m b) (count_true a) K' (Z.of_nat (sp * d)) (Z.of_nat s)
+                                   (chans1 0%Z (Zpad1d ((K' - 1) * (sp * d)) v)) co (Z.of_nat t))
+                                   (seq 0 (out_len (length (nth 0 (Zpad1d ((K' - 1) * (sp * d)) v) [])) K' (sp * d) s))) (seq 0 (count_true m))))
+            (map (fun co => of1 Z (fun t => conv1d_at 0%Z Z.add Z.mul dw (export_w3 dw m a tm w) (export_bias m b) (count_true a) K' (Z.of_nat (sp * d)) (Z.of_nat s)
+                                   (fun ci => padl ((K' - 1) * (sp * d)) (clip Z 0%Z (as1 Z (nth ci l zeroZR)))) co t)) (seq 0 (count_true m)))).
+  { apply (layer1_agree (fun X co t => conv1d_at 0%Z Z.add Z.mul dw (export_w3 dw m a tm w) (export_bias m b) (count_true a) K' (Z.of_nat (sp * d)) (Z.of_nat s) X co t)
+                K' (sp * d) s (count_true m) n v l); auto using conv1d_local. }
+  destruct fold; cbn [slice_bn option_map bn_at]; exact G.
+Qed.
+
+
+Lemma lin_pit_agree fold w b cin m v l : agree0 v l ->
+  agreeT (TS0 (pit_linear_l fold w b cin m v)) (clayer_pit Z 0%Z 1%Z Z.add Z.mul (L0 Z fold w b None cin) m l).
+Proof.
+  intro Hag. unfold pit_linear_l, clayer_pit. cbn [agreeT]. unfold agree0. apply Forall2_map_seq2. intros co Hco i. unfold of0.
+  apply pit_linear_local. intros ci _. symmetry. apply read0. exact Hag.
+Qed.
+
+Lemma lin_exp_agree fold (w : list (list Z)) b cin (m a : list bool) v l : length w = length m -> agree0 v l ->
+  agreeT (TS0 (Zlinear (export_w2 m a w) (export_bias m b) (count_true a) v)) (clayer_exp Z 0%Z Z.add Z.mul (L0 Z fold w b None cin) m a l).
+Proof.
+  intros Hlw Hag. unfold Zlinear, linear, clayer_exp.
+  assert (HC : length (export_w2 m a w) = count_true m).
+  { unfold export_w2. rewrite map_length. apply PC.select_length. exact Hlw. }
+  rewrite HC. cbn [agreeT]. unfold agree0. apply Forall2_map_seq2. intros co Hco i. unfold of0.
+  destruct fold; cbn [slice_bn option_map bn_at]; apply linear_local; intros ci _; symmetry; apply read0; exact Hag.
+Qed.
+
+(* flatten of a 1-D tensor *)
+Lemma list_as_seq (c : list Z) : c = map (fun q => nth q c 0%Z) (seq 0 (length c)).
+Proof.
+  apply (nth_ext _ _ 0%Z 0%Z); [rewrite map_length, seq_length; reflexivity|].
+  intros q Hq. rewrite (PC.nth_map_seq0 _ (length c) q 0%Z Hq). reflexivity.
+Qed.
+Lemma flat_agree n v l : agree1 n v l ->
+  agree0 (concat v) (flat_map (expand1 SZ n (fun q s => of0 Z (s [Z.of_nat q]))) l).
+Proof.
+  intros H. unfold agree0. induction H as [|c s x l [Hc Hv] _ IH]; cbn; [constructor|].
+  apply Forall2_app; [|exact IH]. unfold expand1. rewrite (list_as_seq c) at 1. rewrite Hc.
+  apply Forall2_map_seq2. intros q Hq i. unfold of0. apply Hv. exact Hq.
+Qed.
+
+Lemma zip_agree1 n x y l1 l2 : agree1 n x l1 -> agree1 n y l2 ->
+  agree1 n (zip2 (zip2 Z.add) x y) (zipadd SZ (addR Z Z.add) l1 l2).
+Proof.
+  intro H. revert y l2. induction H as [|c s x l1 [Hc Hv] _ IH]; intros y l2 H2; [destruct H2; constructor|].
+  destruct H2 as [|c2 s2 y l2 [Hc2 Hv2] H2]; cbn; constructor; [|apply IH; exact H2].
+  assert (HL : length (zip2 Z.add c c2) = n).
+  { clear - Hc Hc2. subst n. revert c2 Hc2. induction c as [|a c IH]; intros [|b c2] H; cbn in *; try lia. f_equal. apply IH. lia. }
+  split; [exact HL|]. intros tt Htt. unfold addR. rewrite Hv, Hv2 by exact Htt.
+  clear - Hc Hc2 Htt. subst n. revert c2 tt Hc2 Htt. induction c as [|a c IH]; intros [|b c2] tt H Htt; cbn in *; try lia.
+  destruct tt; [reflexivity|]. apply IH; lia.
+Qed.
+Lemma zip_agree0 x y l1 l2 : agree0 x l1 -> agree0 y l2 -> agree0 (zip2 Z.add x y) (zipadd SZ (addR Z Z.add) l1 l2).
+Proof.
+  intro H. revert y l2. induction H as [|c s x l1 Hv _ IH]; intros y l2 H2; [destruct H2; constructor|].
+  destruct H2 as [|c2 s2 y l2 Hv2 H2]; cbn; constructor; [|apply IH; exact H2].
+  intro i. unfold addR. rewrite Hv, Hv2. reflexivity.
+Qed.
+
+Lemma agree1_mult n x l : agree1 n x l -> x <> [] -> tmult (TS1 x) = n.
+Proof. intros H Hne. cbn. apply (agree1_first n x l H Hne). Qed.
+
+Lemma add_agree t1 t2 l1 l2 : same_shape t1 t2 -> agreeT t1 l1 -> agreeT t2 l2 -> agreeT (tadd t1 t2) (zipadd SZ (addR Z Z.add) l1 l2).
+Proof.
+  destruct t1 as [x|x|x|], t2 as [y|y|y|]; cbn [same_shape agreeT tadd]; try tauto.
+  - intros [Hlen Hm] [n H1] [n2 H2]. destruct x as [|c x].
+    + destruct y; [|discriminate]. exists n. inversion H1; inversion H2; subst. constructor.
+    + assert (Hy : y <> []) by (destruct y; [discriminate|congruence]).
+      pose proof (agree1_mult n (c :: x) l1 H1 ltac:(congruence)) as E1. pose proof (agree1_mult n2 y l2 H2 Hy) as E2.
+      assert (E : n2 = n) by congruence. rewrite E in H2. exists n. apply zip_agree1; assumption.
+  - intros _ H1 H2. apply zip_agree0; assumption.
+Qed.
+
+Lemma cat_agree t1 t2 l1 l2 : cat_ok t1 t2 -> agreeT t1 l1 -> agreeT t2 l2 ->
+  agreeT (tcat t1 t2) (l1 ++ l2) /\ (forall t3, cat_ok t1 t3 -> cat_ok (tcat t1 t2) t3).
+Proof.
+  destruct t1 as [x|x|x|], t2 as [y|y|y|]; cbn [cat_ok agreeT tcat]; try tauto.
+  - intros (Hx & Hy & Hm) [n H1] [n2 H2].
+    pose proof (agree1_mult n x l1 H1 Hx) as E1. pose proof (agree1_mult n2 y l2 H2 Hy) as E2.
+    assert (E : n2 = n) by congruence. rewrite E in H2. split.
+    + exists n. apply Forall2_app; assumption.
+    + intros [z|z|z|]; cbn; try tauto. intros (_ & Hz & Hmz). split; [destruct x; [congruence|discriminate]|]. split; [exact Hz|].
+      destruct x as [|c x]; [congruence|]. cbn in *. exact Hmz.
+  - intros _ H1 H2. split; [apply Forall2_app; assumption|]. intros [z|z|z|]; cbn; tauto.
+Qed.
+
+(* ---- channel concat: the fold of run_net against flat_map *)
+Definition catstep (acc : list xstate) (st : xstate) (j : nat) : xstate :=
+  let '(p, e, a) := st in let '(p2, e2, a2) := xget acc j in (tcat p p2, tcat e e2, a ++ a2).
+Lemma cat_fold acc cal cP cE : GoodX acc cal cP cE -> forall rest st A0 P0 E0, Inv3 st A0 P0 E0 ->
+  Forall (fun j => j < length acc /\ let '(p0, e0, _) := st in let '(p, e, _) := xget acc j in cat_ok p0 p /\ cat_ok e0 e) rest ->
+  Inv3 (fold_left (catstep acc) rest st) (A0 ++ flat_map (fun s => nth s cal []) rest) (P0 ++ flat_map (fun s => nth s cP []) rest)
+       (E0 ++ flat_map (fun s => nth s cE []) rest).
+Proof.
+  intros HG rest. induction rest as [|j rest IH]; intros st A0 P0 E0 HI HF.
+  - cbn. rewrite !app_nil_r. exact HI.
+  - inversion HF as [|? ? [Hj Hok] HF']; subst. cbn [fold_left flat_map]. rewrite !app_assoc.
+    pose proof (GoodX_get _ _ _ _ j HG Hj) as HIj.
+    destruct st as [[p e] a]. unfold catstep at 2. destruct (xget acc j) as [[p2 e2] a2]. destruct Hok as [Hp He].
+    destruct HI as (Ha & Hpp & Hee). destruct HIj as (Ha2 & Hp2 & He2).
+    destruct (cat_agree p p2 P0 _ Hp Hpp Hp2) as [Gp Tp]. destruct (cat_agree e e2 E0 _ He Hee He2) as [Ge Te].
+    apply IH.
+    + split; [subst; reflexivity|split; assumption].
+    + eapply Forall_impl; [|exact HF']. cbn beta. intros k [Hk Hokk]. split; [exact Hk|].
+      destruct (xget acc k) as [[pk ek] ak]. destruct Hokk as [H1 H2]. split; [apply Tp; exact H1|apply Te; exact H2].
+Qed.
+
+Lemma is1_inv t : is1 t -> exists v, t = TS1 v.
+Proof. destruct t; cbn; try tauto. eauto. Qed.
+Lemma is0_inv t : is0 t -> exists v, t = TS0 v.
+Proof. destruct t; cbn; try tauto. eauto. Qed.
+
+(* ---- one step of run_net is one step of the concrete network *)
+Lemma xstep_sound x acc cal cP cE nd : GoodX acc cal cP cE -> xwf_node x acc nd ->
+  Inv3 (xstep x acc nd) (calive_node Z cal (xtr x acc nd))
+       (cpit_node Z 0%Z 1%Z Z.add Z.mul (emb x) cP (xtr x acc nd)) (cexp_node Z 0%Z Z.add Z.mul (emb x) cal cE (xtr x acc nd)).
+Proof.
+  intros HG Hwf. destruct nd as [|src P P'|src fold dw w b cin K d s m tm K' d'|src fold dw w b cin kh kw d s ph pw m|src fold w b cin m|src six|src|src k|src|i j|srcs];
+    cbn [xwf_node] in Hwf; try contradiction.
+  - (* input *) destruct Hwf as (v & n & -> & Hr). cbn. split; [reflexivity|]. split; exists n; apply (agree_in v n Hr).
+  - (* conv1d *) destruct Hwf as (Hs & Hs1 & Hd & Hw). pose proof (GoodX_get _ _ _ _ src HG Hs) as HI.
+    cbn [xstep xtr]. destruct (xget acc src) as [[p e] a]. destruct Hw as (Hp & He & Hlw). destruct HI as (Ha & Hpp & Hee).
+    destruct (is1_inv p Hp) as [v ->]. destruct (is1_inv e He) as [v' ->]. destruct Hpp as [n Hpp]. destruct Hee as [n' Hee].
+    remember (d' / d) as sp eqn:Esp. clear Esp. subst d' a. cbn [calive_node cpit_node cexp_node].
+    split; [reflexivity|]. split.
+    + apply (conv1_pit_agree fold dw w b cin K d s m tm K' sp n v _ Hs1 Hpp).
+    + destruct Hlw as ((Hlw & _) & _). apply (conv1_exp_agree fold dw w b cin K d s m _ tm K' sp n' v' _ Hs1 Hlw Hee).
+  - (* linear *) destruct Hwf as (Hs & Hw). pose proof (GoodX_get _ _ _ _ src HG Hs) as HI.
+    cbn [xstep xtr]. destruct (xget acc src) as [[p e] a]. destruct Hw as (Hp & He & Hlw). destruct HI as (Ha & Hpp & Hee).
+    destruct (is0_inv p Hp) as [v ->]. destruct (is0_inv e He) as [v' ->]. subst a. cbn [calive_node cpit_node cexp_node].
+    split; [reflexivity|]. split.
+    + apply (lin_pit_agree fold w b cin m v _ Hpp).
+    + destruct Hlw as ((Hlw & _) & _). apply (lin_exp_agree fold w b cin m _ v' _ Hlw Hee).
+  - (* activation *) pose proof (GoodX_get _ _ _ _ src HG Hwf) as HI. cbn [xstep xtr]. destruct (xget acc src) as [[p e] a].
+    destruct HI as (Ha & Hpp & Hee). cbn [calive_node cpit_node cexp_node]. split; [exact Ha|]. split; apply agree_map_act; assumption.
+  - (* identity *) pose proof (GoodX_get _ _ _ _ src HG Hwf) as HI. cbn [xstep xtr calive_node cpit_node cexp_node]. rewrite !map_id. exact HI.
+  - (* flatten *) destruct Hwf as (Hs & Hw). pose proof (GoodX_get _ _ _ _ src HG Hs) as HI.
+    cbn [xstep xtr]. destruct (xget acc src) as [[p e] a]. destruct Hw as (Hp & He & Hm). destruct HI as (Ha & Hpp & Hee).
+    destruct (is1_inv p Hp) as [v ->]. destruct (is1_inv e He) as [v' ->]. destruct Hpp as [n Hpp]. destruct Hee as [n' Hee].
+    cbn [calive_node cpit_node cexp_node tflat]. split; [subst a; reflexivity|]. split; cbn [agreeT flat_idx].
+    + destruct v as [|c v]; [inversion Hpp; constructor|]. rewrite (agree1_mult n (c :: v) _ Hpp) by congruence. apply flat_agree. exact Hpp.
+    + destruct v' as [|c v']; [inversion Hee; constructor|]. rewrite <- Hm. rewrite (agree1_mult n' (c :: v') _ Hee) by congruence. apply flat_agree. exact Hee.
+  - (* add *) destruct Hwf as (Hi & Hj & Hw). pose proof (GoodX_get _ _ _ _ i HG Hi) as HIi. pose proof (GoodX_get _ _ _ _ j HG Hj) as HIj.
+    cbn [xstep xtr]. destruct (xget acc i) as [[p1 e1] a1]. destruct (xget acc j) as [[p2 e2] a2]. destruct Hw as (Ha & Sp & Se).
+    destruct HIi as (Ha1 & Hp1 & He1). destruct HIj as (Ha2 & Hp2 & He2). cbn [calive_node cpit_node cexp_node].
+    split; [exact Ha1|]. split; apply add_agree; assumption.
+  - (* concat *) destruct Hwf as (Hne & HF). destruct srcs as [|s0 rest]; [congruence|]. cbn [hd] in HF.
+    inversion HF as [|? ? [Hs0 _] HF']; subst. pose proof (GoodX_get _ _ _ _ s0 HG Hs0) as HI0.
+    cbn [xstep xtr calive_node cpit_node cexp_node flat_map].
+    change (fun (st : tens * tens * list bool) (j : nat) => let '(p, e, a) := st in let '(p2, e2, a2) := xget acc j in (tcat p p2, tcat e e2, a ++ a2)) with (catstep acc).
+    apply (cat_fold acc cal cP cE HG rest (xget acc s0) _ _ _ HI0).
+    destruct (xget acc s0) as [[p0 e0] a0]. exact HF'.
+Qed.
+
+(* ---- the translated network is well-formed in the sense of C01_export_sound_concrete *)
+Lemma xtr_cwf x acc cal cP cE nd : GoodX acc cal cP cE -> xwf_node x acc nd -> cwf_node Z 0%Z (tchan x) cal (xtr x acc nd).
+Proof.
+  intros HG Hwf. pose proof HG as (Hl & _).
+  destruct nd as [|src P P'|src fold dw w b cin K d s m tm K' d'|src fold dw w b cin kh kw d s ph pw m|src fold w b cin m|src six|src|src k|src|i j|srcs];
+    cbn [xwf_node] in Hwf; try contradiction.
+  - reflexivity.
+  - destruct Hwf as (Hs & Hs1 & Hd & Hw). pose proof (GoodX_get _ _ _ _ src HG Hs) as HI. cbn [xtr cwf_node].
+    destruct (xget acc src) as [[p e] a]. destruct Hw as (_ & _ & Hlw). destruct HI as (Ha & _). subst a. split; [lia|exact Hlw].
+  - destruct Hwf as (Hs & Hw). pose proof (GoodX_get _ _ _ _ src HG Hs) as HI. cbn [xtr cwf_node].
+    destruct (xget acc src) as [[p e] a]. destruct Hw as (_ & _ & Hlw). destruct HI as (Ha & _). subst a. split; [lia|exact Hlw].
+  - cbn [xtr cwf_node]. split; [lia|]. split.
+    + intro i. unfold actZ, zeroR. destruct six; reflexivity.
+    + intros s1 s2 H i. unfold actZ. rewrite H. reflexivity.
+  - cbn [xtr cwf_node]. split; [lia|]. split; [intro i; reflexivity|intros s1 s2 H; exact H].
+  - destruct Hwf as (Hs & _). cbn [xtr]. destruct (xget acc src) as [[p e] a]. cbn [cwf_node]. split; [lia|]. split.
+    + intros q i. reflexivity.
+    + intros q s1 s2 H i. unfold of0. apply H.
+  - destruct Hwf as (Hi & Hj & Hw). pose proof (GoodX_get _ _ _ _ i HG Hi) as HIi. pose proof (GoodX_get _ _ _ _ j HG Hj) as HIj.
+    cbn [xtr cwf_node]. destruct (xget acc i) as [[p1 e1] a1]. destruct (xget acc j) as [[p2 e2] a2]. destruct Hw as (Ha & _).
+    destruct HIi as (Ha1 & _). destruct HIj as (Ha2 & _). split; [lia|split; [lia|congruence]].
+  - destruct Hwf as (_ & HF). cbn [xtr cwf_node]. eapply Forall_impl; [|exact HF]. cbn beta. intros k [Hk _]. lia.
+Qed.
+
+Fixpoint xwf_acc (x : tens) (acc : list xstate) (net : list xnode) : Prop :=
+  match net with [] => True | nd :: rest => xwf_node x acc nd /\ xwf_acc x (acc ++ [xstep x acc nd]) rest end.
+Definition xwf (net : list xnode) (x : tens) : Prop := xwf_acc x [] net.
+
+Lemma GoodX_snoc acc cal cP cE st a p e : GoodX acc cal cP cE -> Inv3 st a p e -> GoodX (acc ++ [st]) (cal ++ [a]) (cP ++ [p]) (cE ++ [e]).
+Proof.
+  intros (H1 & H2 & H3 & HI) Hi. unfold GoodX. rewrite !app_length. cbn. split; [lia|split; [lia|split; [lia|]]].
+  intros i Hlt. destruct (Nat.eq_dec i (length acc)) as [->|Hne].
+  - rewrite nth_middle. rewrite <- H1 at 1. rewrite nth_middle. rewrite <- H2 at 1. rewrite nth_middle. rewrite <- H3. rewrite nth_middle. exact Hi.
+  - rewrite !app_nth1 by lia. apply HI. lia.
+Qed.
+
+Lemma xrun_sound x net : forall acc cal cP cE, GoodX acc cal cP cE -> xwf_acc x acc net ->
+  GoodX (xrun x acc net) (calive_acc Z cal (xtr_run x acc net))
+        (cpit_acc Z 0%Z 1%Z Z.add Z.mul (emb x) cP (xtr_run x acc net)) (cexp_acc Z 0%Z Z.add Z.mul (emb x) cal cE (xtr_run x acc net)) /\
+  cwf_acc Z 0%Z (tchan x) cal (xtr_run x acc net) /\ length (xrun x acc net) = length acc + length net /\ length (xtr_run x acc net) = length net.
+Proof.
+  induction net as [|nd net IH]; cbn; intros acc cal cP cE HG Hwf.
+  - split; [exact HG|]. split; [exact I|]. split; [lia|reflexivity].
+  - destruct Hwf as [Hnd Hwf].
+    destruct (IH _ _ _ _ (GoodX_snoc _ _ _ _ _ _ _ _ HG (xstep_sound x acc cal cP cE nd HG Hnd)) Hwf) as (G & W & L1 & L2).
+    split; [exact G|]. split; [split; [apply (xtr_cwf x acc cal cP cE nd HG Hnd)|exact W]|]. rewrite L1, L2, app_length. cbn. lia.
+Qed.
+
+Lemma emb_length x : (exists v, x = TS1 v) -> length (emb x) = tchan x.
+Proof. intros [v ->]. cbn. apply map_length. Qed.
+
+(* run_net computes, node by node, the alive masks and (on every valid index) the tensors of the searched network ceval_pit
+   and of the exported network ceval_exp of the concrete network xtr_net net x, which is well-formed (cwf) *)
+Theorem run_net_sound : forall net x, xwf net x ->
+  let st := run_net net x in let cn := xtr_net net x in
+  cwf Z 0%Z (tchan x) cn /\ length st = length net /\ length cn = length net /\
+  forall i, i < length net ->
+    Inv3 (nth i st xdef) (nth i (calive_net Z cn) []) (nth i (ceval_pit Z 0%Z 1%Z Z.add Z.mul cn (emb x)) [])
+         (nth i (ceval_exp Z 0%Z Z.add Z.mul cn (emb x)) []).
+Proof.
+  intros net x Hwf. cbv zeta. unfold run_net, xtr_net, calive_net, ceval_pit, ceval_exp, cwf.
+  assert (G0 : GoodX [] [] [] []) by (repeat split; cbn; intros i Hi; inversion Hi).
+  destruct (xrun_sound x net [] [] [] [] G0 Hwf) as ((_ & _ & _ & HI) & W & L1 & L2). cbn in L1.
+  split; [exact W|]. split; [exact L1|]. split; [exact L2|]. intros i Hi. apply HI. lia.
+Qed.
